@@ -33,7 +33,13 @@
 //     boolean result is `o_visitor (trace)` for an oracle parameter o_visitor : list gcall -> bool of the translated
 //     function (the trace already holds the call).  Integer arguments are GNum x.  ASSUMED (the seam's contract): the
 //     callee reads what it is presented and does not write the memory;
-//   - `if a || b` / `if a && b` where b loads from memory or calls a callback: nested ifs (Go's short circuit).
+//   - `if a || b` / `if a && b` where b loads from memory or calls a callback: nested ifs (Go's short circuit);
+//   - a Go string assembled through its header:  `var s string; h = (*reflect.StringHeader)(unsafe.Pointer(&s))` makes s the
+//     pair of locals s__data (uintptr) / s__len (int); h.Data / h.Len are these variables (rewritten in the syntax tree, so
+//     they are loop-carried like any other local); s as an ARGUMENT of a callback is PRESENTED: `gldbytes (mb_ld mem) data len`
+//     (Lib/GoMb.v: no access for len = 0, otherwise ONE load of len bytes, as a byte list; len taken as unsigned) and
+//     recorded as GBytes; any other use of s is rejected;
+//   - a callback without results as a statement: the event only.
 //
 // Everything here is guarded by mbOn(): the output for configs without "memstructs" is unchanged.
 package main
@@ -374,6 +380,14 @@ func (tr *translator) mbCallHoist(c *ast.CallExpr, name string, cb mbCallback, e
 			}
 			continue
 		}
+		if id, ok := mbUnparen(a).(*ast.Ident); ok {
+			if ti, ok := en.vars[id.Name]; ok && ti.named == "gostring" {
+				tmp := tr.tmp()
+				tr.pre = append(tr.pre, fmt.Sprintf("match gldbytes (mb_ld %s) %s %s with None => GPanic | Some %s =>", tr.mbMem(), v(id.Name+"__data"), v(id.Name+"__len"), tmp))
+				gargs = append(gargs, "GBytes "+tmp)
+				continue
+			}
+		}
 		as, at := tr.expr(a, en)
 		if at.width < 0 {
 			fail("%s: unsupported argument of the callback %s", tr.fn.Name, name)
@@ -643,6 +657,23 @@ func (tr *translator) mbStmt(stmts []ast.Stmt, en *env, k func(*env) string, res
 			en2.vars[n.Name] = tinfo{width: -3, named: "struct:" + id.Name}
 			return rest(en2), true
 		}
+		if id, ok := vs.Type.(*ast.Ident); ok && id.Name == "string" && len(vs.Values) == 0 {
+			// a string that is assembled through its header: the locals s__data, s__len
+			en2 := en.clone()
+			en2.vars[n.Name] = tinfo{width: -3, named: "gostring"}
+			en2.vars[n.Name+"__data"] = tinfo{width: 64}
+			en2.vars[n.Name+"__len"] = tinfo{width: 64, signed: true}
+			return "let " + v(n.Name+"__data") + " := 0 in\n  let " + v(n.Name+"__len") + " := 0 in\n  " + rest(en2), true
+		}
+		if len(vs.Values) == 1 {
+			if sname, ok := mbStringHeaderOf(vs.Values[0], en); ok {
+				// h = (*reflect.StringHeader)(unsafe.Pointer(&s)): h.Data / h.Len are s__data / s__len from here on
+				for _, st := range stmts[1:] {
+					mbRewriteHeader(st, n.Name, sname)
+				}
+				return rest(en), true
+			}
+		}
 		if len(vs.Values) == 1 {
 			// var x [T] = e with loads in e: x := T(e)
 			var val ast.Expr = vs.Values[0]
@@ -731,6 +762,85 @@ func (tr *translator) mbStmt(stmts []ast.Stmt, en *env, k func(*env) string, res
 		}
 	}
 	return "", false
+}
+
+// mbStringHeaderOf recognises (*reflect.StringHeader)(unsafe.Pointer(&s)) for a string variable s of this mode
+func mbStringHeaderOf(e ast.Expr, en *env) (string, bool) {
+	c, ok := mbUnparen(e).(*ast.CallExpr)
+	if !ok || len(c.Args) != 1 {
+		return "", false
+	}
+	par, ok := c.Fun.(*ast.ParenExpr)
+	if !ok {
+		return "", false
+	}
+	st, ok := par.X.(*ast.StarExpr)
+	if !ok || exprText(st.X) != "reflect.StringHeader" {
+		return "", false
+	}
+	in, ok := c.Args[0].(*ast.CallExpr)
+	if !ok || exprText(in.Fun) != "unsafe.Pointer" || len(in.Args) != 1 {
+		return "", false
+	}
+	u, ok := in.Args[0].(*ast.UnaryExpr)
+	if !ok || u.Op != token.AND {
+		return "", false
+	}
+	id, ok := u.X.(*ast.Ident)
+	if !ok || en.vars[id.Name].named != "gostring" {
+		return "", false
+	}
+	return id.Name, true
+}
+
+// mbRewriteHeader replaces h.Data / h.Len by the identifiers s__data / s__len (in place, once); any other use of h is rejected
+func mbRewriteHeader(n ast.Node, h, s string) {
+	fix := func(e ast.Expr) ast.Expr {
+		if sel, ok := e.(*ast.SelectorExpr); ok {
+			if id, ok := sel.X.(*ast.Ident); ok && id.Name == h {
+				switch sel.Sel.Name {
+				case "Data":
+					return ast.NewIdent(s + "__data")
+				case "Len":
+					return ast.NewIdent(s + "__len")
+				}
+				fail("memstructs: unsupported field %s of the string header %s", sel.Sel.Name, h)
+			}
+		}
+		return e
+	}
+	ast.Inspect(n, func(x ast.Node) bool {
+		switch t := x.(type) {
+		case *ast.AssignStmt:
+			for i := range t.Lhs {
+				t.Lhs[i] = fix(t.Lhs[i])
+			}
+			for i := range t.Rhs {
+				t.Rhs[i] = fix(t.Rhs[i])
+			}
+		case *ast.BinaryExpr:
+			t.X, t.Y = fix(t.X), fix(t.Y)
+		case *ast.CallExpr:
+			for i := range t.Args {
+				t.Args[i] = fix(t.Args[i])
+			}
+		case *ast.ParenExpr:
+			t.X = fix(t.X)
+		case *ast.UnaryExpr:
+			t.X = fix(t.X)
+		case *ast.IncDecStmt:
+			t.X = fix(t.X)
+		case *ast.ReturnStmt:
+			for i := range t.Results {
+				t.Results[i] = fix(t.Results[i])
+			}
+		case *ast.Ident:
+			if t.Name == h {
+				fail("memstructs: the string header %s is used other than through .Data / .Len", h)
+			}
+		}
+		return true
+	})
 }
 
 // mbParam: a parameter of a listed function type is a seam (no Coq parameter for the function value)
